@@ -1,7 +1,7 @@
 """C12 — Tape parameters <-> six-vector: correspondence and oracle."""
 import math
 
-from common import Prop, bits, close, reply_floats, import_mtfit, main
+from common import Failure, Prop, bits, close, reply_floats, import_mtfit, main
 from c13 import PI, angdiff, fl, vbits
 from c02 import unit6
 
@@ -256,6 +256,26 @@ class C12(Prop):
         if not (E[0] >= E[1] - 1e-12 and E[1] >= E[2] - 1e-12):
             out.append(('eig-order', 'eigenvalues are not in descending order: %r' % (E,), None))
         return out[:3]
+
+    def extra(self, rng, tier):
+        """Batches that are not float64 (axis-aligned tensors typed without decimal points): the batched conversion must give what the float64 batch gives."""
+        np, cv = self.np, self.cv
+        cols = [[1, -1, 0, 0, 0, 0], [0, 1, -1, 0, 0, 0], [2, -1, -1, 0, 0, 0], [1, 0, 0, 0, 0, 0], [0, 0, 0, 1, 0, 0], [1, 1, -2, 0, 0, 0], [3, 1, -2, 0, 0, 0]]
+        fails, cov = [], {'non_float_batches': 0}
+        for nb in (2, 3, 6, 7):
+            for dt in (np.int64, np.int32, np.float32):
+                arr = np.array(cols[:nb], dtype=dt).T
+                ref = [np.asarray(x, dtype=float).flatten() for x in cv.MT6_Tape(arr.astype(np.float64))]
+                for container in ('array', 'matrix'):
+                    a = arr.copy() if container == 'array' else np.matrix(arr.copy())
+                    got = [np.asarray(x, dtype=float).flatten() for x in cv.MT6_Tape(a)]
+                    cov['non_float_batches'] += 1
+                    dev = max(float(np.max(np.abs(g - r))) if g.shape == r.shape else float('inf') for g, r in zip(got, ref))
+                    if not dev < (1e-5 if dt is np.float32 else 1e-12):
+                        fails.append(Failure('property', {'kind': 'dtype-batch', 'columns': nb, 'dtype': np.dtype(dt).name, 'container': container},
+                                             'MT6_Tape on a batch of %d tensors of type %s (%s) differs from the same batch as float64 by %r in a Tape parameter'
+                                             % (nb, np.dtype(dt).name, container, dev), key='dtype-batch'))
+        return cov, fails[:3]
 
     def nontrivial(self, case, impl):
         return isinstance(impl, dict) and 'E' in impl and not self._degenerate(impl)
